@@ -35,13 +35,12 @@ GROUPS = {
                  bound="all 2^64 doubles, loop-free"),
         ] + [
             dict(name="rate_binade_%02d" % e, complete=True, props=["C12"], targets=["rate_to_n_alpha", "rate_to_n"], covers=1,
-                 tier="quick" if e in (0, 1, 23, 51) else "thorough", timeout=900,
+                 tier="quick" if e in (0, 1, 10, 23, 40, 51) else "thorough", timeout=300,
                  bound="all f32 rates in (2^-%d, 2^-%d], all 2^64 draws; loop-free" % (e + 1, e)) for e in range(52)
         ] + [
-            dict(name="rate_to_n_decision_all_rates_all_draws", complete=True, props=["C12"], targets=["rate_to_n"], covers=2, timeout=900,
-                 bound="all f32 rates in [2^-63, 1], all 2^64 draws; loop-free"),
-            dict(name="rate_to_n_small_rates", complete=True, props=["C12"], targets=["rate_to_n"], covers=2, timeout=900,
-                 bound="all f32 rates in (0, 2^-52] incl. subnormals, all draws; loop-free"),
+            dict(name="rate_to_n_decision_all_rates_all_draws", complete=True, props=["C12"], targets=["rate_to_n"], covers=2, timeout=600, uses_stubs=True,
+                 bound="all f32 rates in (0,1], all 2^64 draws, any (n, alpha) returned by the stubbed rate_to_n_alpha; loop-free"),
+            dict(name="saturation_threshold_is_2_pow_minus_63", complete=True, props=["C12"], targets=["rate_to_n"]),
         ],
     ),
     "writer_sample": dict(
@@ -63,8 +62,9 @@ GROUPS = {
         target_files="metrique-writer/src/sample/congress.rs",
         props=["C12"],
         harnesses=[
-            dict(name="ema_add_sample_step", complete=True, targets=["ExpMovingAverage::add_sample"], timeout=900,
-                 bound="any state with samples<=16, 0<=value<=4e9; any u32 sample; loop-free"),
+            dict(name="ema_add_sample_counter_step", complete=True, targets=["ExpMovingAverage::add_sample"], timeout=300,
+                 bound="any state with samples<=16, any f32 value and sample; loop-free"),
+            dict(name="ema_first_sample_is_taken_as_is", complete=True, targets=["ExpMovingAverage::add_sample"], timeout=300),
             dict(name="group_state_update_and_retain_step", complete=True, targets=["GroupState::update_and_retain"], covers=1, timeout=900,
                  bound="any state satisfying the invariant; loop-free"),
             dict(name="group_state_record_observation", complete=True, targets=["GroupState::record_observation"]),
@@ -90,5 +90,15 @@ GROUPS = {
             dict(name="with_unit_checks_then_converts", complete=True, targets=["WithUnit::write"], timeout=600,
                  bound="all u32 payloads; honest / lying-unit / string values"),
         ],
+    ),
+    "timers_shared": dict(
+        crate="metrique",
+        prefix="timers::verif_kani::",
+        modules={"metrique/src/timers.rs": "kani/metrique/timers.rs"},
+        target_files="metrique/src/timers.rs",
+        props=["C18"],
+        jobs=8,
+        harnesses=[dict(name=n, complete=True, targets=["OwnedTimerGuard", "SharedDuration", "MaybeGuardedDuration::shared_cloned", "Stopwatch::clear/close"], timeout=600,
+                        bound="symbolic total (Option) and spans (u32 seconds + nanos); loop-free; guards built already stopped (no clock)") for n in ['shared_cloned_keeps_total', 'owned_guard_drop_adds_span_once', 'owned_guard_stop_returns_span_and_adds_once', 'owned_guard_discard_adds_nothing', 'owned_guard_overwrite_replaces_total', 'two_live_owned_guards_both_count', 'clear_with_live_owned_guard', 'borrowed_guard_on_shared_stopwatch']],
     ),
 }
